@@ -1,6 +1,7 @@
 //! seqio_verif <ID> quick|thorough        run the check for one property
 //! seqio_verif <ID> replay <file>         re-run one replay file
 
+mod alloc;
 mod driver;
 mod engine;
 mod gen;
@@ -13,6 +14,9 @@ mod source;
 mod util;
 
 use engine::Tier;
+
+#[global_allocator]
+static GLOBAL: alloc::Counting = alloc::Counting;
 
 pub fn interp_livelock(src: &source::SharedLog, f: model::Format) -> engine::CheckResult {
     if src.borrow().budget_exceeded {
@@ -55,11 +59,14 @@ fn main() {
         "C04" => props::c04::run_c04(tier),
         "C05" => props::c04::run_c05(tier),
         "C06" => props::c06::run(tier),
+        "C09" => props::c09::run(tier),
         "C10" => props::c10::run(tier),
         "C11" => props::c11::run(tier),
         "C12" => props::c12::run(tier),
         "C13" => props::c13::run(tier),
+        "C14" => props::c14::run_check(tier),
         "C17" => props::c17::run(tier),
+        "C18" => props::c18::run(tier),
         "C19" => props::c19::run(tier),
         "C20" => props::c20::run(tier),
         _ => {
